@@ -15,7 +15,8 @@ import (
 // Event is one step of a read script.
 //
 //	data N      deliver the next N bytes of the stream (split further if the caller's buffer is smaller)
-//	timeout     empty timed-out read (error satisfies errors.Is(err, os.ErrDeadlineExceeded))
+//	timeout N   timed-out read (error satisfies errors.Is(err, os.ErrDeadlineExceeded)), empty unless N > 0: then the deadline ended
+//	            the read after N bytes had arrived and it returns both, as an io.Reader may
 //	empty       empty read without error (serial ports)
 //	eof N       deliver N bytes together with io.EOF (N may be 0)
 //	ioerr N     deliver N bytes together with an I/O error
@@ -192,8 +193,9 @@ func (s *Script) read(p []byte) (int, error) {
 		}
 		return s.logRead(p, n, nil)
 	case "timeout":
+		n := s.take(p, ev.N)
 		pop()
-		return s.logRead(p, 0, ErrTimeout)
+		return s.logRead(p, n, ErrTimeout)
 	case "empty":
 		pop()
 		return s.logRead(p, 0, nil)
